@@ -24,7 +24,7 @@ ASSUMPTIONS = [
 ]
 REQUIRED = {t: ['ind:sobolev_space', 'ind:sobolev_time', 'ind:weighted_l2', 'patch:same-piece', 'patch:corner', 'patch:seam', 'patch:circle',
                 'patch:circle-seam', 'patch:self', 'residual:polynomial', 'residual:trigonometric', 'order:1', 'order:19', 'rel:shortcut',
-                'rel:pool', 'rel:symmetry', 'rel:neighbour-set', 'rel:list-order', 'curve:UnitSquare', 'curve:PiSquare', 'curve:LShape', 'curve:Circle']
+                'rel:pool', 'rel:symmetry', 'rel:neighbour-set', 'rel:list-order', 'rel:pool-history', 'curve:UnitSquare', 'curve:PiSquare', 'curve:LShape', 'curve:Circle']
             for t in ('quick', 'thorough')}
 TIMEOUT = {'quick': 1500, 'thorough': 7200}
 CURVES = ['UnitSquare', 'PiSquare', 'LShape', 'Circle']
@@ -403,6 +403,29 @@ def run_rel(spec, acc):
                 acc.violation('sobolev-pool-differs', '%s: estimate_sobolev with %d workers differs from the serial result' % (curve, k), dict(wit0, workers=k))
             if np.asarray(wl_pool).tobytes() != wl_serial.tobytes():
                 acc.violation('weighted-l2-pool-differs', '%s: estimate_weighted_l2 with %d workers differs from the serial result' % (curve, k), dict(wit0, workers=k))
+        # a history of DIFFERENT pooled calls in one process: another residual, then a refined mesh (state kept in
+        # worker processes or module globals from an earlier call must not leak into a later one)
+        r2, _ = trig_residual(0.4, 0.9, 0.2, 0.1)
+        mp.cpu_count = lambda: 3
+        try:
+            steps = [('second residual', elems, r2)]
+            got = [(EE.estimate_sobolev(elems, r2, use_mp=True), EE.estimate_weighted_l2(elems, r2, use_mp=True))]
+            serial_ref = [(EE.estimate_sobolev(elems, r2, use_mp=False), EE.estimate_weighted_l2(elems, r2, use_mp=False))]
+            for _ in range(3):
+                L = ls.leaves()
+                ls.apply(('b', rng.randrange(len(L)), rng.randrange(2)))
+            elems2 = list(mesh.leaf_elements)
+            steps.append(('refined mesh', elems2, rtrig))
+            got.append((EE.estimate_sobolev(elems2, rtrig, use_mp=True), EE.estimate_weighted_l2(elems2, rtrig, use_mp=True)))
+            serial_ref.append((EE.estimate_sobolev(elems2, rtrig, use_mp=False), EE.estimate_weighted_l2(elems2, rtrig, use_mp=False)))
+        finally:
+            mp.cpu_count = real_cpu
+        for (label, el, rr), (gs, gw), (ws_, ww_) in zip(steps, got, serial_ref):
+            acc.case('%s|pool-history|%s' % (curve, label), None)
+            acc.seen('rel:pool-history')
+            if np.asarray(gs).tobytes() != ws_.tobytes() or np.asarray(gw).tobytes() != ww_.tobytes():
+                acc.violation('pool-differs-after-earlier-call', '%s: pooled estimate (%s) after earlier pooled calls in the same process differs from the serial result'
+                              % (curve, label), dict(wit0, step=label))
     except Exception as ex:
         fr = repo_frame(ex)
         if fr is None:
